@@ -72,6 +72,8 @@ func cliMakeSet(rng *rand.Rand, root string, k int, longLines bool) *cliSet {
 	// two headers in one source file: two adjacent matches of the same kind
 	s.files["src/double.go"] = []byte("// " + strings.Replace(strings.TrimRight(string(cliRead(hdr[0])), "\n"), "\n", "\n// ", -1) + "\n\n// ---\n\n// " +
 		strings.Replace(strings.TrimRight(string(cliRead(hdr[2])), "\n"), "\n", "\n// ", -1) + "\n\npackage double\n")
+	// the bytes classified are the file's bytes: blank lines in front of the text count as lines, blanks behind it stay
+	s.files["leading/blank_lines.txt"] = append(append([]byte("\n\n \t\n\n"), pick(lic)...), []byte("\n \n\n")...)
 	// names are data, not format strings: URL-escaped and percent-laden paths
 	s.files["my%20project/100%vendored/LICENSE%d.txt"] = pick(lic)
 	s.files["my%20project/%s%v%!/COPYING"] = append([]byte("Copyright 2018 Percent Inc\n\n"), pick(lic)...)
